@@ -18,12 +18,12 @@ TraceInit == EmptyPool /\ l = 1
 TSession  == IsEvent("session") /\ UNCHANGED pvars
 TNew      == IsEvent("pnew") /\ PNewCore(Ev.min, Ev.max, Ev.rules, Ev.model)
 TArrive   == IsEvent("arrive") /\ ArriveCore(Ev.q, Rng(Ev.keys), Ev.names, Ev.fail)
-TPop      == IsEvent("pop") /\ PopCore(Ev.q, Ev.i)
+TPop      == IsEvent("pop") /\ PopCore(Ev.q, Ev.i, Ev.len)
 TSpin     == IsEvent("spin") /\ SpinCore
 TPeek     == IsEvent("peek") /\ PeekCore(Ev.q, Ev.key, Ev.val)
 TRule     == IsEvent("rule") /\ RuleRunCore(Ev.q, Ev.r, Ev.tag)
 TReturn   == IsEvent("req_end") /\ ReturnCore(Ev.q, Ev.err, Ev.vals, Ev.cv)
-TPush     == IsEvent("push") /\ PushCore(Ev.i)
+TPush     == IsEvent("push") /\ PushCore(Ev.i, Ev.len)
 TQuiesce  == IsEvent("quiesce") /\ QuiesceCore
 TFrozen   == IsEvent("frozen") /\ FrozenCore(Ev.q, Ev.same)
 TUpdBegin == IsEvent("upd_begin") /\ UpdBeginCore(Ev.kind, Ev.rules, Ev.names)
